@@ -682,6 +682,27 @@ func specEncIPs(ss []string, i int) string {
 //@ contract (DUIDLLT).ToBytes
 //@   ensures[layout] string(result) == specEnc16(1) + specEnc16(int(d.HWType)) + specEnc32(int(d.Time)) + string(d.LinkLayerAddr)
 
+// NTP server suboptions: an address suboption is the 16-byte address; the FQDN suboption, the domain search list, the NTP
+// server option and the 4rd option delegate to the encoder of the value they wrap (one call, on that value)
+//@ contract (*NTPSuboptionSrvAddr).ToBytes
+//@   ensures[addr] len(*n) == 16 ==> string(result) == string(*n)
+//@ contract (*NTPSuboptionMCAddr).ToBytes
+//@   ensures[addr] len(*n) == 16 ==> string(result) == string(*n)
+//@ contract (*NTPSuboptionSrvFQDN).ToBytes
+//@   ensures[delegates] called("(*rfc1035label.Labels).ToBytes") && callarg("(*rfc1035label.Labels).ToBytes", 0) == &n.Labels && result == callresult("(*rfc1035label.Labels).ToBytes", 0)
+//@ contract (*optDomainSearchList).ToBytes
+//@   ensures[delegates] called("(*rfc1035label.Labels).ToBytes") && callarg("(*rfc1035label.Labels).ToBytes", 0) == op.DomainSearchList && result == callresult("(*rfc1035label.Labels).ToBytes", 0)
+//@ contract (*OptNTPServer).ToBytes
+//@   ensures[delegates] called("(Options).ToBytes") && callarg("(Options).ToBytes", 0) == op.Suboptions && result == callresult("(Options).ToBytes", 0)
+//@ contract (*Opt4RD).ToBytes
+//@   ensures[delegates] called("(Options).ToBytes") && callarg("(Options).ToBytes", 0) == op.FourRDOptions.Options && result == callresult("(Options).ToBytes", 0)
+
+//@ contract (DUIDUUID).ToBytes
+//@   ensures[layout] len(result) == 18 && string(result)[0:2] == specEnc16(4) && (forall i int :: {result[2+i]} 0 <= i && i < 16 ==> result[2+i] == d.UUID[i])
+
+//@ contract (DUIDOpaque).ToBytes
+//@   ensures[layout] string(result) == specEnc16(int(d.Type)) + string(d.Data)
+
 //@ contract (DUIDLL).ToBytes
 //@   ensures[layout] string(result) == specEnc16(3) + specEnc16(int(d.HWType)) + string(d.LinkLayerAddr)
 
@@ -715,6 +736,15 @@ func lemmaEnc32Cat(a string, v int) {}
 //@   ensures[layout] string(result) == specEncTiles(S, 0)
 //@   loop 0 invariant[lexer] lexOK(buf) && buf.err == nil && (ref(buf.Buffer.data) == 0 || fresh(buf.Buffer.data))
 //@   loop 0 invariant[input] seq(op.UserClasses) == S && rangeval == op.UserClasses
+//@   loop 0 invariant[work] string(buf.Buffer.data) + specEncTiles(S, rangeindex+1) == specEncTiles(S, 0)
+
+// boot file parameters (RFC 5970 3.2): every parameter, the empty ones included, as (2-byte length, value), in order
+//@ contract (optBootFileParam).ToBytes
+//@   let S = seq(op.params)
+//@   requires forall i int :: {op.params[i]} 0 <= i && i < len(op.params) ==> len(op.params[i]) < 65536
+//@   ensures[layout] string(result) == specEncTiles(S, 0)
+//@   loop 0 invariant[lexer] lexOK(buf) && buf.err == nil && (ref(buf.Buffer.data) == 0 || fresh(buf.Buffer.data))
+//@   loop 0 invariant[input] seq(op.params) == S && rangeval == op.params
 //@   loop 0 invariant[work] string(buf.Buffer.data) + specEncTiles(S, rangeindex+1) == specEncTiles(S, 0)
 
 //@ contract (*OptVendorClass).ToBytes
@@ -787,8 +817,7 @@ func lemmaEnc32Cat(a string, v int) {}
 
 //@ contract (*OptVendorOpts).ToBytes
 //@   ensures[header] len(result) >= 4 && string(result)[0:4] == specEnc32(int(op.EnterpriseNumber))
-// (the vendor options are written through (*Lexer).WriteData, i.e. encoding/binary's reflection, whose trusted contract
-// says nothing about the bytes written: no nested-tail clause here)
+//@   ensures[nested] nestedTail(result, 4, op.VendorOpts)
 
 //@ contract (*OptFQDN).ToBytes
 //@   requires op.DomainName != nil
@@ -1280,6 +1309,19 @@ func lemmaFix4RDMapRule(data []byte) {
 	verifAssert(string(r.Prefix4.IP) == string(q.Prefix4.IP) && string(r.Prefix6.IP) == string(q.Prefix6.IP))
 	verifAssert(dhcpv4.SpecMaskOnes(string(r.Prefix4.Mask)) == dhcpv4.SpecMaskOnes(string(q.Prefix4.Mask)))
 	verifAssert(dhcpv4.SpecMaskOnes(string(r.Prefix6.Mask)) == dhcpv4.SpecMaskOnes(string(q.Prefix6.Mask)))
+}
+
+//@ contract lemmaFixDUIDOpaque
+func lemmaFixDUIDOpaque(p []byte) {
+	var q DUIDOpaque
+	if q.FromBytes(p) != nil {
+		return
+	}
+	b := q.ToBytes()
+	var r DUIDOpaque
+	err := r.FromBytes(b[2:])
+	verifAssert(err == nil)
+	verifAssert(string(r.Data) == string(q.Data))
 }
 
 //@ contract lemmaFixRemoteID
